@@ -1,7 +1,9 @@
 """C05 — a Solution faithfully reports the evaluated problem (DESIGN §5 C05)."""
 from .common import *
-from .feas import check_feasibility_rule, origins, PathEval, const_operand, error_propagates, absent_inserts, false_leads_to_error, enum_tests, result_kind, f64_of_operand, item_calls
+from .feas import (check_feasibility_rule, origins, PathEval, const_operand, error_propagates, absent_inserts, false_leads_to_error, enum_tests, result_kind, f64_of_operand, item_calls,
+                   dominates_ok, dominates_sem, must_pass_sem, loop_must2 as loop_must, mustcall2 as mustcall, returned_struct, truth_table, canon)
 
+SOME0 = ('std::option::Option::Some', '0')
 INST = 'v1::Instance'; DV = 'v1::DecisionVariable'; CON = 'v1::Constraint'; RC = 'v1::RemovedConstraint'; EC = 'v1::EvaluatedConstraint'
 TOL_FEAS = 1e-6; TOL_BOUND = 1e-7
 
@@ -118,6 +120,29 @@ def flag_rules(ctx, body, sol, sbi, loops, feas_calls):
             ctx.check(bool(evs), R + '.flags/tests-this-iteration', 'T-CARRY', body.name, 'is_feasible is not applied to the constraint evaluated in this iteration', body.site(c.bb))
 
 
+def option_map_pairs(ctx, body, lo):
+    """`v.substituted_value.map(|x| (v.id, x))` on the item v of loop `lo` -- the combinator form of
+    `match v.substituted_value { Some(x) => Some((v.id, x)), None => None }`: calls whose result is Some((v.id, x)) exactly when the
+    variable has a substituted value x"""
+    item = lo[0].dst['l']; out = []
+    for m in body.calls:
+        if m.bb not in lo[4] or m.item != 'map' or not re.search(r'option::Option::<.*>::map::<', m.name) or len(m.args) != 2: continue
+        root, fs = canon(body, m.args[0])
+        if root != item or not fs or fs[-1] != (DV, 'substituted_value'): continue
+        cl = m.args[1]
+        if cl['k'] not in ('copy', 'move') or cl['pl']['p']: continue
+        cdefs = [d for k, bi, d in body.defs_of(cl['pl']['l']) if k == 'stmt' and d['rv']['k'] == 'agg' and d['rv']['adt'].startswith('closure:')]
+        if len(cdefs) != 1: continue
+        cb = ctx.F.bodies.get(cdefs[0]['rv']['adt'][8:])
+        caps = cdefs[0]['rv']['ops']
+        if cb is None or len(caps) != 1 or canon(body, caps[0])[0] != item: continue
+        rets = [rs for e, k, rs in cb.ret_assignments() if k == 'val' and rs['rv']['k'] == 'agg' and rs['rv']['adt'] == 'tuple' and len(rs['rv']['ops']) == 2]
+        if len(rets) != 1 or len(cb.ret_assignments()) != 1: continue
+        ke = T.expr(cb, rets[0]['rv']['ops'][0]); ve = T.strip_wrappers(T.expr(cb, rets[0]['rv']['ops'][1]))
+        if ke[0] == 'place' and ke[1] == 1 and ke[2][-1:] == [(DV, 'id')] and ve == ('place', 2, []): out.append(m)
+    return out
+
+
 def solution_rules(ctx, body):
     R = 'C05'
     # ---------------- bound check
@@ -127,15 +152,16 @@ def solution_rules(ctx, body):
         ctx.check(T.access_path(body, cb.args[0])[1] == 1 and T.access_path(body, cb.args[1])[1] == 2, R + '.bound/args', 'T-CARRY', body.name, 'check_bound is not applied to (self, state)', body.site(cb.bb))
         # it must come before anything is evaluated
         evs = [c for c in body.calls if c.item == 'evaluate' and 'Evaluate' in (c.trait or '')]
-        ctx.check(all(body.dominates(cb.bb, c.bb) for c in evs), R + '.bound/first', 'T-GUARD', body.name, 'an evaluation happens before the bound check', body.site(cb.bb))
+        ctx.check(all(dominates_sem(ctx, body, cb.bb, c.bb) for c in evs), R + '.bound/first', 'T-GUARD', body.name, 'an evaluation happens before the bound check', body.site(cb.bb))
     # ---------------- coverage of the message
     cover(ctx, R + '.cover', body, INST, exempt=('description', 'sense', 'parameters', 'constraint_hints'))
     # ---------------- the Solution aggregate
-    aggs = find_aggregates(body, 'v1::Solution')
-    if len(aggs) != 1:
-        ctx.bad(R + '.solution/aggregate', 'ANCHOR', body.name, 'expected one v1::Solution aggregate, found %d' % len(aggs)); return
-    sbi, sol = aggs[0]
-    ctx.check(all(body.dominates(sbi, e) for e in body.strict_ok_exits()), R + '.solution/on-every-success-path', 'T-MUSTCALL', body.name, 'Solution aggregate does not dominate the Ok-exit', body.site(sbi))
+    # the Solution that is returned, field by field (one literal, `..base` update syntax or `s.field = x` after construction)
+    sv = returned_struct(ctx, body, 'v1::Solution')
+    if sv is None:
+        ctx.bad(R + '.solution/aggregate', 'ANCHOR', body.name, 'the v1::Solution returned on success is not one recognisable value'); return
+    sbi, sol = sv.where, sv.st()
+    ctx.check(dominates_ok(ctx, body, sbi), R + '.solution/on-every-success-path', 'T-MUSTCALL', body.name, 'Solution aggregate does not dominate the Ok-exit', body.site(sbi))
     # ---------------- both lists: evaluate every element, push it exactly once
     pushes = [c for c in body.calls if c.item == 'push' and re.search(r'Vec::<(v1::EvaluatedConstraint|T)>::push', c.name) and 'EvaluatedConstraint' in body.locals[c.args[0]['pl']['l']] + c.name]
     feas_calls = [c for c in body.calls if c.item == 'is_feasible' and c.path.endswith('EvaluatedConstraint>::is_feasible')]
@@ -164,7 +190,7 @@ def solution_rules(ctx, body):
             chain = {l for l in s.locals if re.fullmatch(r'v1::EvaluatedConstraint', body.locals[l])}
             touched = [body.site(bi) for bi, st in body.stmts() if (st['rv']['k'] == 'ref' and st['rv'].get('mut') and st['rv']['pl']['l'] in chain) or (st['dst']['p'] and st['dst']['l'] in chain)]
             ctx.check(not touched, R + '.lists/%s/push-unmodified' % field, 'T-CARRY', body.name, 'evaluated constraint is modified before it is pushed (%s)' % touched, body.site(c.bb))
-        ctx.check(all(body.dominates(header, e) for e in body.strict_ok_exits()), R + '.lists/%s/dominates' % field, 'T-MUSTCALL', body.name, 'loop does not dominate the Ok-exit', body.site(nextc.bb))
+        ctx.check(dominates_ok(ctx, body, header), R + '.lists/%s/dominates' % field, 'T-MUSTCALL', body.name, 'loop does not dominate the Ok-exit', body.site(nextc.bb))
     stray = [c for c in pushes if not any(c.bb in lo[4] for lo in loops.values())]
     ctx.check(bool(pushes) and not stray, R + '.lists/no-other-push', 'T-LOOPMUST', body.name, 'the evaluated list is also pushed to outside the two evaluation loops (%d)' % len(stray), body.site(stray[0].bb) if stray else body.site())
     ec = carry_field(ctx, R + '.lists/solution-field', body, sol, 'evaluated_constraints', need_fields=[(INST, 'constraints'), (INST, 'removed_constraints')], site=body.site(sbi))
@@ -202,8 +228,12 @@ def solution_rules(ctx, body):
                 # the pairing (v.id, v.substituted_value) is visible here: then it is decided here.
                 # On the Some arm, every iteration with a substituted value reaches the insert
                 arms = [sm for sb, sm, nn in option_field_tests(body, DV, 'substituted_value') if sb in lo[4]]
-                if arms and all(T.must_pass(body, a, {lo[1]}, {c.bb}) for a in arms): sub = ('precise', lo, c)
+                if arms and all(must_pass_sem(ctx, body, a, {lo[1]}, {c.bb}) for a in arms): sub = ('precise', lo, c)
                 elif sub is None or sub[0] == 'slice': sub = ('skips', lo, c)
+            elif any(canon(body, c.args[1]) == (m.dst['l'], (SOME0, ('tuple', '0'))) and canon(body, c.args[2]) == (m.dst['l'], (SOME0, ('tuple', '1')))
+                     and all(must_pass_sem(ctx, body, mm.get(1, els), {lo[1]}, {c.bb}) for sb, mm, els in T.option_arms(body, m.dst['l'])) and T.option_arms(body, m.dst['l'])
+                     for m in option_map_pairs(ctx, body, lo)):
+                sub = ('precise', lo, c)          # the pairs come from `v.substituted_value.map(|x| (v.id, x))`
             elif sub is None:
                 # weaker: key and value of the insert derive from v.id / v.substituted_value of the variables iterated
                 # (the pairing happens in a closure or a binding the access path cannot follow)
@@ -221,7 +251,7 @@ def solution_rules(ctx, body):
             ctx.ok(rule + '~slice', 'T-BRANCHFX', body.site(c.bb))
         ctx.check(st is not None and c in st.call_objs, R + '.state/substituted/same-state', 'T-CARRY', body.name, 'substituted values are inserted into another map', body.site(c.bb))
         if ed is not None:
-            ctx.check(body.dominates(lo[1], ed.bb) and ed.bb not in lo[4], R + '.state/substituted/before-dependencies', 'T-MUSTCALL', body.name, 'substituted values are inserted after eval_dependencies', body.site(c.bb))
+            ctx.check(dominates_sem(ctx, body, lo[1], ed.bb) and ed.bb not in lo[4], R + '.state/substituted/before-dependencies', 'T-MUSTCALL', body.name, 'substituted values are inserted after eval_dependencies', body.site(c.bb))
     # ids the state still lacks are filled with nearest_to_zero of the variable's own bound -- only if absent
     fill = None
     for lo in dvl:
@@ -238,11 +268,32 @@ def solution_rules(ctx, body):
         lo, c = fill
         ctx.check(st is not None and c in st.call_objs, R + '.state/fill/same-state', 'T-CARRY', body.name, 'irrelevant variables are filled into another map', body.site(c.bb))
         if ed is not None:
-            ctx.check(body.dominates(ed.bb, lo[1]), R + '.state/fill/after-dependencies', 'T-MUSTCALL', body.name, 'fill happens before dependencies are evaluated', body.site(c.bb))
-        ctx.check(all(body.dominates(lo[1], e) for e in body.strict_ok_exits()), R + '.state/fill/dominates', 'T-MUSTCALL', body.name, 'fill loop does not dominate the Ok-exit', body.site(c.bb))
+            ctx.check(dominates_sem(ctx, body, ed.bb, lo[1]), R + '.state/fill/after-dependencies', 'T-MUSTCALL', body.name, 'fill happens before dependencies are evaluated', body.site(c.bb))
+        ctx.check(dominates_ok(ctx, body, lo[1]), R + '.state/fill/dominates', 'T-MUSTCALL', body.name, 'fill loop does not dominate the Ok-exit', body.site(c.bb))
     ctx.check(fill is not None, R + '.state/fill/nearest_to_zero', 'T-BRANCHFX', body.name, 'unused variables are not completed (only where the state has no value) with Bound::nearest_to_zero of their own bound', body.site())
     tbs = [c for c in body.calls if CONV_DV.search(c.name)]
     error_propagates(ctx, R + '.state/fill/bound-error', body, tbs, 'bound conversion')
+
+
+def contains_shape_rule(ctx, R, cb):
+    """structural fall-back of C05.bound/contains (used when the body cannot be interpreted)"""
+    cmps = [(bi, st) for bi, st in float_cmp_sites(cb)]
+    shapes = []
+    for bi, st in cmps:
+        l = T.expr(cb, st['rv']['ops'][0]); r = T.expr(cb, st['rv']['ops'][1])
+        shapes.append((st['rv']['op'], T.expr_str(l), T.expr_str(r)))
+    want = {('Le', '(_1.lower Sub _3)', '_2'), ('Le', '_2', '(_1.upper Add _3)')}
+    norm = set()
+    for op, l, r in shapes:
+        if op == 'Ge': op, l, r = 'Le', r, l
+        norm.add((op, l, r))
+    ctx.check(norm == want, R + '/contains/shape', 'T-BRANCHFX', cb.name, 'contains is not `lower - atol <= v && v <= upper + atol`: %s' % sorted(shapes), cb.site(), shape=sorted(shapes))
+    oks = []
+    for bi, st in cmps:
+        for g in T.guards_from_local(cb, st['dst']['l'], bi):
+            fr = T.reach_cp(cb, [g.false_bb]) if g.false_bb is not None else set()
+            oks.append(any(b2 in fr and s2['dst']['l'] == 0 and s2['rv']['k'] == 'use' and s2['rv']['ops'][0].get('v') == 'false' for b2, s2 in cb.stmts()))
+    ctx.check(len(cmps) == 2 and (not oks or oks[0]), R + '/contains/conjunction', 'T-BRANCHFX', cb.name, 'the two comparisons are not combined with &&', cb.site())
 
 
 def check_bound_rules(ctx):
@@ -277,29 +328,23 @@ def check_bound_rules(ctx):
         si = ctx.S.slice_operand(b, nextc.args[0])
         restr = sorted({x.item for x in si.call_objs if x.item in RESTRICTING and 'Iterator' in (x.trait or '')})
         ctx.check(not restr and 2 in si.params and si.has_field('v1::State', 'entries'), R + '/check_bound/all-entries', 'T-LOOPMUST', b.name, 'loop does not visit all state entries %s' % restr, b.site(nextc.bb))
-    # Bound::contains shape
+    # Bound::contains: `lower - atol <= v && v <= upper + atol`.  A small pure function: decided as a truth table on a grid of
+    # points around both ends (any way of writing it: `&&`, De Morgan, `(lo..=hi).contains(&v)`, clamp, early returns);
+    # the expression-shape form of the rule is only the fall-back when the body cannot be interpreted.
     cb = ctx.method(R + '/contains/anchor', 'bound::Bound', 'contains')
     if cb is not None:
-        cmps = [(bi, st) for bi, st in float_cmp_sites(cb)]
-        shapes = []
-        for bi, st in cmps:
-            l = T.expr(cb, st['rv']['ops'][0]); r = T.expr(cb, st['rv']['ops'][1])
-            shapes.append((st['rv']['op'], T.expr_str(l), T.expr_str(r)))
-        want = {('Le', '(_1.lower Sub _3)', '_2'), ('Le', '_2', '(_1.upper Add _3)')}
-        alt = {('Ge', '_2', '(_1.lower Sub _3)'), ('Ge', '(_1.upper Add _3)', '_2')}
-        norm = set()
-        for op, l, r in shapes:
-            if op == 'Ge': op, l, r = 'Le', r, l
-            norm.add((op, l, r))
-        ctx.check(norm == want, R + '/contains/shape', 'T-BRANCHFX', cb.name, 'contains is not `lower - atol <= v && v <= upper + atol`: %s' % sorted(shapes), cb.site(), shape=sorted(shapes))
-        # conjunction: result true requires both
-        oks = []
-        for bi, st in cmps:
-            for g in T.guards_from_local(cb, st['dst']['l'], bi):
-                fr = T.reach_cp(cb, [g.false_bb]) if g.false_bb is not None else set()
-                # on the false side the returned value must be the constant false
-                oks.append(any(b2 in fr and s2['dst']['l'] == 0 and s2['rv']['k'] == 'use' and s2['rv']['ops'][0].get('v') == 'false' for b2, s2 in cb.stmts()))
-        ctx.check(len(cmps) == 2 and (not oks or oks[0]), R + '/contains/conjunction', 'T-BRANCHFX', cb.name, 'the two comparisons are not combined with &&', cb.site())
+        pts = []
+        for lo_, up_ in ((1.0, 2.0), (-3.0, -1.0), (-1.0, 4.0), (0.0, 0.0)):
+            for at in (0.25, 0.0):
+                for v in (lo_ - at - 0.125, lo_ - at, lo_ - at + 0.125, lo_, (lo_ + up_) / 2, up_, up_ + at - 0.125, up_ + at, up_ + at + 0.125):
+                    pts.append(({'lower': lo_, 'upper': up_}, v, at))
+        tab, why = truth_table(ctx.F, cb, pts, lambda bnd, v, at: bnd['lower'] - at <= v and v <= bnd['upper'] + at)
+        if tab is not None:
+            ctx.check(not tab, R + '/contains/shape', 'T-BRANCHFX', cb.name, 'contains is not `lower - atol <= v && v <= upper + atol`: e.g. %s' % (tab[:2],), cb.site(), points=len(pts))
+            accepted = [m for m in tab if m[1] is True]          # `||` instead of `&&`, a missing end
+            ctx.check(not accepted, R + '/contains/conjunction', 'T-BRANCHFX', cb.name, 'values outside the widened bound are accepted: %s' % (accepted[:2],), cb.site())
+        else:
+            contains_shape_rule(ctx, R, cb)
     # get_bounds branch table (and its sibling TryFrom<&DecisionVariable> for Bound)
     gbb = ctx.method(R + '/get_bounds/anchor', INST, 'get_bounds')
     tfb = ctx.method(R + '/try_from/anchor', 'bound::Bound', 'try_from', trait='TryFrom', targs=["&v1::DecisionVariable"])
@@ -314,20 +359,25 @@ def check_bound_rules(ctx):
         ctx.check(bool(loops), R + '/get_bounds/loop', 'T-LOOPMUST', gbb.name, 'no loop over decision_variables', gbb.site())
         for lo in loops[:1]:
             loop_must(ctx, R + '/get_bounds/every-variable', gbb, lo, lambda c: c.item == 'insert' and 'HashMap' in c.name, 'bounds.insert')
-    # nearest_to_zero branch table
+    # nearest_to_zero: {lower >= 0 => lower; upper <= 0 => upper; else 0} -- truth table, structural form as fall-back
     nz = ctx.method('C05.state/nearest_to_zero/anchor', 'bound::Bound', 'nearest_to_zero')
     if nz is not None:
-        rows = []
-        for bi, st in float_cmp_sites(nz):
-            l = T.expr_str(T.expr(nz, st['rv']['ops'][0])); r = T.expr_str(T.expr(nz, st['rv']['ops'][1]))
-            for g in T.guards_from_local(nz, st['dst']['l'], bi):
-                tr = T.reach_cp(nz, [g.true_bb]) - T.reach_cp(nz, [g.false_bb])
-                rets = [T.expr_str(T.expr(nz, s2['rv']['ops'][0])) for b2, s2 in nz.stmts() if b2 in tr and s2['dst']['l'] == 0 and s2['rv']['k'] == 'use']
-                rows.append((st['rv']['op'], l, r, tuple(rets)))
-        consts = [s2['rv']['ops'][0]['v'] for b2, s2 in nz.stmts() if s2['dst']['l'] == 0 and s2['rv']['k'] == 'use' and s2['rv']['ops'][0]['k'] == 'const']
-        want = {('Ge', '_1.lower', '0f64', ('_1.lower',)), ('Le', '_1.upper', '0f64', ('_1.upper',))}
-        ctx.check(set(rows) == want and consts == ['0f64'], 'C05.state/nearest_to_zero/table', 'T-BRANCHFX', nz.name,
-                  'nearest_to_zero is not {lower>=0 => lower; upper<=0 => upper; else 0}: %s else %s' % (rows, consts), nz.site(), table=rows)
+        pts = [({'lower': a, 'upper': c},) for a, c in ((1.0, 2.0), (0.5, 0.5), (0.0, 2.0), (-2.0, -1.0), (-2.0, 0.0), (-1.0, 3.0), (-4.0, 0.25), (float('-inf'), float('inf')), (float('-inf'), -2.0), (3.0, float('inf')))]
+        tab, why = truth_table(ctx.F, nz, pts, lambda bnd: bnd['lower'] if bnd['lower'] >= 0.0 else (bnd['upper'] if bnd['upper'] <= 0.0 else 0.0))
+        if tab is not None:
+            ctx.check(not tab, 'C05.state/nearest_to_zero/table', 'T-BRANCHFX', nz.name, 'nearest_to_zero is not {lower>=0 => lower; upper<=0 => upper; else 0}: e.g. %s' % (tab[:3],), nz.site(), points=len(pts))
+        else:
+            rows = []
+            for bi, st in float_cmp_sites(nz):
+                l = T.expr_str(T.expr(nz, st['rv']['ops'][0])); r = T.expr_str(T.expr(nz, st['rv']['ops'][1]))
+                for g in T.guards_from_local(nz, st['dst']['l'], bi):
+                    tr = T.reach_cp(nz, [g.true_bb]) - T.reach_cp(nz, [g.false_bb])
+                    rets = [T.expr_str(T.expr(nz, s2['rv']['ops'][0])) for b2, s2 in nz.stmts() if b2 in tr and s2['dst']['l'] == 0 and s2['rv']['k'] == 'use']
+                    rows.append((st['rv']['op'], l, r, tuple(rets)))
+            consts = [s2['rv']['ops'][0]['v'] for b2, s2 in nz.stmts() if s2['dst']['l'] == 0 and s2['rv']['k'] == 'use' and s2['rv']['ops'][0]['k'] == 'const']
+            want = {('Ge', '_1.lower', '0f64', ('_1.lower',)), ('Le', '_1.upper', '0f64', ('_1.upper',))}
+            ctx.check(set(rows) == want and consts == ['0f64'], 'C05.state/nearest_to_zero/table', 'T-BRANCHFX', nz.name,
+                      'nearest_to_zero is not {lower>=0 => lower; upper<=0 => upper; else 0}: %s else %s' % (rows, consts), nz.site(), table=rows)
 
 
 KIND = 'v1::decision_variable::Kind'
@@ -380,50 +430,61 @@ def bound_default_table(ctx, rule, fb, sibling=None):
     return tab
 
 
+def inherited_from(ctx, b, sv, calls, except_fields):
+    """fields of the returned struct (other than except_fields) that are NOT the same-named field of the value `calls` returned"""
+    bad = []
+    for f, op in sv.fields.items():
+        if f in except_fields: continue
+        ok = op is not None and op['k'] in ('copy', 'move') and any(c in ctx.S.slice_operand(b, op).call_objs for c in calls)
+        if ok:
+            ef = fields_of_place(op['pl']) or T.own_fields(T.expr(b, op))
+            ok = bool(ef) and ef[-1][1] == f            # `name: out.description` is not the evaluated constraint's name
+        if not ok: bad.append(f)
+    return bad
+
+
 def constraint_rules(ctx):
     R = 'C05.lists'
     b = ctx.method(R + '/Constraint::evaluate/anchor', CON, 'evaluate', trait='Evaluate')
     if b is not None:
-        aggs = find_aggregates(b, EC)
-        ctx.check(len(aggs) == 1, R + '/Constraint::evaluate/aggregate', 'T-CARRY', b.name, 'expected one EvaluatedConstraint aggregate, found %d' % len(aggs), b.site())
-        for bi, st in aggs:
+        sv = returned_struct(ctx, b, EC)
+        ctx.check(sv is not None, R + '/Constraint::evaluate/aggregate', 'T-CARRY', b.name, 'the EvaluatedConstraint returned on success is not one recognisable value', b.site())
+        for bi, st in ([(sv.where, sv.st())] if sv is not None else []):
             for f in ('id', 'equality', 'name', 'subscripts', 'parameters', 'description'):
                 op = agg_field_operand(st, f)
                 fs, root, calls = T.access_path(b, op) if op else ([], None, [])
                 ctx.check(root == 1 and fs == [(CON, f)], R + '/Constraint::evaluate/carry/' + f, 'T-CARRY', b.name, 'EvaluatedConstraint.%s is not self.%s (path %s)' % (f, f, fs), b.site(bi))
-            ev = T.expr(b, agg_field_operand(st, 'evaluated_value'), depth=14)
+            ev = T.expr(b, agg_field_operand(st, 'evaluated_value'), depth=14) if agg_field_operand(st, 'evaluated_value') else ('local', -1)
             okv = any(x[0] == 'call' and x[1] == 'evaluate' and 'v1::Function as evaluate::Evaluate' in x[2] and T.expr_has_call(x[3][0], 'function') and T.strip_wrappers(x[3][1]) == ('place', 2, []) for x in T.expr_walk(ev))
             ctx.check(okv and [f for a, f in T.own_fields(ev) if a == 'tuple'][-1:] == ['0'], R + '/Constraint::evaluate/value', 'T-CARRY', b.name, 'evaluated_value is not `.0` of self.function().evaluate(state): %s' % T.expr_str(ev), b.site(bi))
-            us = slice_op(ctx, b, agg_field_operand(st, 'used_decision_variable_ids'))
-            ctx.check(us.has_call(r'v1::Function as evaluate::Evaluate>::evaluate'), R + '/Constraint::evaluate/used-ids', 'T-CARRY', b.name, 'used ids do not come from the function evaluation', b.site(bi))
+            uop = agg_field_operand(st, 'used_decision_variable_ids')
+            ctx.check(uop is not None and slice_op(ctx, b, uop).has_call(r'v1::Function as evaluate::Evaluate>::evaluate'), R + '/Constraint::evaluate/used-ids', 'T-CARRY', b.name, 'used ids do not come from the function evaluation', b.site(bi))
             rr = agg_field_operand(st, 'removed_reason')
-            ctx.check(T.expr(b, rr)[0] == 'agg' and T.expr(b, rr)[1].endswith('Option::None'), R + '/Constraint::evaluate/no-reason', 'T-CONST', b.name, 'active constraint gets a removal reason', b.site(bi))
+            ctx.check(rr is not None and T.expr(b, rr)[0] == 'agg' and T.expr(b, rr)[1].endswith('Option::None'), R + '/Constraint::evaluate/no-reason', 'T-CONST', b.name, 'active constraint gets a removal reason', b.site(bi))
         fe = [c for c in b.calls if c.item == 'evaluate' and 'v1::Function as evaluate::Evaluate' in c.name]
         error_propagates(ctx, R + '/Constraint::evaluate/error-propagates', b, fe, 'function evaluation')
     b = ctx.method(R + '/RemovedConstraint::evaluate/anchor', RC, 'evaluate', trait='Evaluate')
     if b is not None:
         ce = [c for c in b.calls if c.item == 'evaluate' and re.search(r'<v1::Constraint as evaluate::Evaluate>::evaluate', c.name)]
-        ctx.check(len(ce) == 1, R + '/RemovedConstraint::evaluate/delegates', 'T-MUSTCALL', b.name, 'does not evaluate the wrapped constraint', b.site())
+        ctx.check(len(ce) >= 1, R + '/RemovedConstraint::evaluate/delegates', 'T-MUSTCALL', b.name, 'does not evaluate the wrapped constraint', b.site())
         for c in ce:
             fs, root, calls = T.access_path(b, c.args[0])
             ctx.check((RC, 'constraint') in fs and T.access_path(b, c.args[1])[1] == 2, R + '/RemovedConstraint::evaluate/args', 'T-CARRY', b.name, 'not (self.constraint, state)', b.site(c.bb))
             error_propagates(ctx, R + '/RemovedConstraint::evaluate/error-propagates', b, [c], 'constraint evaluation')
         opt = [c for c in b.calls if c.item == 'as_ref' and 'Option::<v1::Constraint>' in c.name]
         error_propagates(ctx, R + '/RemovedConstraint::evaluate/missing-is-error', b, opt, 'missing constraint')
+        # the returned EvaluatedConstraint: the two removal fields from self, every other field the wrapped constraint's evaluation;
+        #   `out.f = x; Ok((out, ids))`  ==  `Ok((EvaluatedConstraint { f: x, ..out }, ids))`  ==  a literal naming every field
+        sv = returned_struct(ctx, b, EC)
         for f in ('removed_reason', 'removed_reason_parameters'):
-            ws = [(bi, st) for bi, st in b.stmts() if st['dst']['p'] and fields_of_place(st['dst'])[-1:] == [(EC, f)]]
+            op = sv.fields.get(f) if sv is not None else None
             ok = False
-            for bi, st in ws:
-                s = ctx.S.slice_operand(b, st['rv']['ops'][0])
-                ex = T.expr(b, st['rv']['ops'][0])
-                if (RC, f) in T.expr_fields(ex) and all(b.dominates(bi, e) for e in b.strict_ok_exits()):
-                    ok = f != 'removed_reason' or (ex[0] == 'agg' and ex[1].endswith('Option::Some'))
+            if op is not None:
+                ex = T.expr(b, op)
+                ok = (RC, f) in T.expr_fields(ex) and (f != 'removed_reason' or (ex[0] == 'agg' and ex[1].endswith('Option::Some')))
             ctx.check(ok, R + '/RemovedConstraint::evaluate/' + f, 'T-CARRY', b.name, 'EvaluatedConstraint.%s is not set from self.%s on every success path' % (f, f), b.site())
-        # the returned value is that same evaluated constraint
-        for e, k, rst in b.ret_assignments():
-            if k == 'ok':
-                s = ctx.S.slice_operand(b, rst['rv']['ops'][0])
-                ctx.check(any(c in s.call_objs for c in ce), R + '/RemovedConstraint::evaluate/returns-it', 'T-CARRY', b.name, 'returned value is not the evaluated constraint', b.site(e))
+        bad = inherited_from(ctx, b, sv, ce, ('removed_reason', 'removed_reason_parameters')) if sv is not None else ['?']
+        ctx.check(not bad, R + '/RemovedConstraint::evaluate/returns-it', 'T-CARRY', b.name, 'returned value is not the evaluated constraint in its fields %s' % bad, b.site())
 
 
 # the reported objective / constraint values are produced by the evaluation kernels
